@@ -250,7 +250,7 @@ def build_family(tier):
             b.add('%s, a' % decl, body % '::a', '%s/obj_step/%s' % (op, recv), Prod(conts[recv], SL_OBJ_S), 's1s_%s' % recv)
             # C-typed bounds
             for ct in ('ssize_t', 'int', 'size_t'):
-                if quick and ct == 'size_t':
+                if quick and ct == 'size_t' and op != 'slget':
                     continue
                 ann = CTYPES[ct][0]
                 b.add('%s, a: %s, b: %s' % (decl, ann, ann), body % 'a:b', '%s/%s2/%s' % (op, ct, recv),
@@ -359,14 +359,14 @@ def keyfn(tag, inp, exp, got):
         mag = {'in': 'small', 'out': 'small', 'neg-in': 'small', 'neg-out': 'small', 'neg': 'small', 'nonneg': 'small',
                'big+': 'big', 'big-': 'big'}
         classes = sorted(set(mag.get(c, c) for c in classes))
+        if any(c.startswith('huge') for c in classes) and (recv != 'obj' or has_c):
+            # a bound at/beyond the Py_ssize_t limits (typed receiver, or a C-typed bound on any receiver): the index
+            # form, the container and the other bound do not matter; "got OverflowError" and "anything else" (wrong
+            # value, MemoryError, crash: reads outside the object are not deterministic) are the two divergence classes
+            d = 'OverflowError' if div.endswith('OverflowError') else 'wrong-result-or-crash'
+            return '%s/%s|bound-at-ssize_t-limit|%s' % (op, 'typed' if recv != 'obj' else 'obj', d)
         if recv != 'obj':
             recv, ctype = 'typed', (ctype if ':' in ctype else '-')
-            if any(c.startswith('huge') for c in classes):
-                # a bound at/beyond the Py_ssize_t limits on a typed receiver: the index form and the other bound
-                # do not matter; "got OverflowError" and "anything else" (wrong value, MemoryError, crash: reads
-                # outside the object are not deterministic) are the two divergence classes
-                d = 'OverflowError' if div.endswith('OverflowError') else 'wrong-result-or-crash'
-                return '%s/typed|bound-at-ssize_t-limit|%s' % (op, d)
     else:
         form = re.sub(_CINT, 'cint', form)
         if recv != 'obj':
